@@ -1,0 +1,84 @@
+//go:build verif
+
+package ice
+
+import (
+	"bufio"
+	"fmt"
+	"io"
+	"sync"
+
+	"github.com/RoaringBitmap/roaring"
+	segment "github.com/blugelabs/bluge_segment_api"
+)
+
+// This file only exists under the "verif" build tag. It exports the
+// chunk-mode parameterised builder and merger and a few probes so that
+// the verification harness under /verif can drive them.
+
+// VerifNew is newWithChunkMode.
+func VerifNew(results []segment.Document, normCalc func(string, int) float32,
+	chunkMode uint32) (segment.Segment, uint64, error) {
+	return newWithChunkMode(results, normCalc, chunkMode)
+}
+
+// VerifMerger mirrors Merger but lets the caller pick the chunk mode.
+type VerifMerger struct {
+	segments        []segment.Segment
+	drops           []*roaring.Bitmap
+	newDocNums      [][]uint64
+	mergeBufferSize int
+	chunkMode       uint32
+}
+
+func VerifMerge(segments []segment.Segment, drops []*roaring.Bitmap, mergeBufferSize int,
+	chunkMode uint32) *VerifMerger {
+	return &VerifMerger{segments: segments, drops: drops, mergeBufferSize: mergeBufferSize,
+		chunkMode: chunkMode}
+}
+
+func (m *VerifMerger) WriteTo(w io.Writer, closeCh chan struct{}) (n int64, err error) {
+	bases := make([]*Segment, len(m.segments))
+	for i, seg := range m.segments {
+		sb, ok := seg.(*Segment)
+		if !ok {
+			return 0, fmt.Errorf("unexpected segment type %T", seg)
+		}
+		bases[i] = sb
+	}
+	bw := bufio.NewWriterSize(w, m.mergeBufferSize)
+	var sz uint64
+	m.newDocNums, sz, err = mergeSegmentBasesWriter(bases, m.drops, bw, m.chunkMode, closeCh)
+	if err != nil {
+		return 0, err
+	}
+	n = int64(sz)
+	err = bw.Flush()
+	return n, err
+}
+
+func (m *VerifMerger) DocumentNumbers() [][]uint64 {
+	return m.newDocNums
+}
+
+// VerifPoolReset replaces the builder pool with an empty one.
+func VerifPoolReset() {
+	interimPool = sync.Pool{New: func() interface{} { return &interim{} }}
+}
+
+// VerifPoolProbe reports whether the builder pool hands out a recycled
+// object (one that has been through at least one build).
+func VerifPoolProbe() bool {
+	s := interimPool.Get().(*interim)
+	used := s.lastNumDocs > 0 || cap(s.Postings) > 0 || cap(s.DictKeys) > 0 ||
+		cap(s.numTermsPerPostingsList) > 0 || s.builder != nil
+	interimPool.Put(s)
+	return used
+}
+
+// VerifSetGate installs (or with nil removes) the gate function that is
+// called at the verifGate points. Must not be called while other
+// goroutines are inside ice.
+func VerifSetGate(f func(point string)) {
+	verifGateFn = f
+}
